@@ -34,10 +34,19 @@ def run(ctx):
             bits = rs.randint(0, 2, nslots) if kind == "random" else np.resize(PRBS(7, 127, seed=seed % 126 + 1).data, nslots)
         if bits.min() == bits.max():
             bits[0] = 1 - bits[0]
-        base = LPF(np.kron(bits, np.ones(sps)).astype(float), 0.75e9).signal
+        nrz = np.kron(bits, np.ones(sps)).astype(float)
+        if BAND[0] == "rc":
+            # a causal one-pole response (time constant 0.15 slot): asymmetric pulses, the eye opens late in the slot
+            a_, acc, base = 1 - math.exp(-1 / (0.15 * sps)), nrz[0], np.empty_like(nrz)
+            for i_, v_ in enumerate(nrz):
+                acc += a_ * (v_ - acc)
+                base[i_] = acc
+        else:
+            base = LPF(nrz, 0.75e9).signal
         return base, rs.randn(base.size) * sigma
 
     RESAMP = [128]
+    BAND = ["bessel"]
 
     def estimate(y, seed):
         np.random.seed(seed)
@@ -65,6 +74,9 @@ def run(ctx):
         RESAMP[0] = [128, 128, None, 24, 30, 64, 40, 2 * sps, 100][(it - it // 3) % 9] if it % 3 != 2 else 128
         if (RESAMP[0] or sps) < 16:
             RESAMP[0] = 24          # the timing bands (10 % of a slot) presuppose an eye time grid of at least 16 points per slot
+        if it % 3 == 2 and it % 2 == 1:
+            RESAMP[0] = [16, 24][(it // 6) % 2]      # sps = 32 seen through a coarser eye grid
+        BAND[0] = "rc" if it % 4 == 1 else "bessel"
         sigma = rnd.choice([0.005, 0.02, 0.05])
         a, b = pairs[it % len(pairs)]
         base, nz = synth(sps, kind, nslots, 100 + it, sigma)
@@ -79,7 +91,7 @@ def run(ctx):
         else:
             events.append({"kind": "est", "finite": False})
         meta.append(("est", (a, b), sps, sigma))
-        ctx.case(("est", sps, kind, int(math.floor(math.log10(d))), a < 0, sigma, RESAMP[0]), {"levels": [a, b], "sps": sps, "nslots": nslots, "sigma_rel": sigma, "pattern": kind})
+        ctx.case(("est", sps, kind, int(math.floor(math.log10(d))), a < 0, sigma, RESAMP[0], BAND[0]), {"levels": [a, b], "sps": sps, "nslots": nslots, "sigma_rel": sigma, "pattern": kind})
         if it % 3 != 2 or not ok:
             continue
         # equivariance twins under the same numpy seed
@@ -94,7 +106,7 @@ def run(ctx):
                                "dtl": ppm(e2.t_left - e.t_left), "dtr": ppm(e2.t_right - e.t_right), "dto": ppm(e2.t_opt - e.t_opt), "same_i": bool(e2.i == e.i)})
             meta.append(("equiv", (a, b), alpha, beta / d))
             ctx.case(("equiv", sps, int(math.floor(math.log10(alpha))), beta != 0))
-    RESAMP[0] = 128
+    RESAMP[0], BAND[0] = 128, "bessel"
     # two records with the same number of samples but different samples per slot, one after the other (and back)
     for it, seq in enumerate([[(16, 256), (32, 128), (16, 256)], [(8, 512), (32, 128), (16, 256)]] if T else [[(16, 256), (32, 128), (16, 256)]]):
         for j, (sps, nslots) in enumerate(seq):
